@@ -118,6 +118,19 @@ def run(check, ctx):
     c_modes.mode_tables(check, ctx, ("ctr", "cfb", "ofb", "cbc", "ecb"), rule="M")
     from . import c_ocb
     c_ocb.ocb_tables(check, ctx, rule="G-c", groups=("guards",))
+    # the other native kernels on their row tables, for the sake of the evaluator's bounds checks: buffers are allocated
+    # with exactly the lengths the Python layer passes, so a block-sized load from a partial final piece, a pad written
+    # past the state or a table index past the table is reported as an out-of-bounds access of the named object
+    c_ocb.ocb_tables(check, ctx, rule="M", groups=("crypt",))
+    from . import c_keccak, c_md, c_chacha, c_salsa, c_poly, c_ghash, c_kat, c_pkcs1
+    c_keccak.keccak_tables(check, ctx, rule="M", groups=("sponge",))
+    c_md.md_tables(check, ctx, rule="M", groups=("pad",))
+    c_chacha.chacha_tables(check, ctx, rule="M")
+    c_salsa.salsa_tables(check, ctx, groups=("stream",), rule="M")
+    c_poly.poly_tables(check, ctx, rule="M")
+    c_ghash.ghash_tables(check, ctx, rule="M")
+    c_kat.kat_tables(check, ctx, rule="M")
+    c_pkcs1.pkcs1_tables(check, ctx, rule="M")
     c_ec.memory_tables(check, ctx)
     # the big-number layer: every load and store of the word / Montgomery / modular-exponentiation rows is bounds-checked
     # by the evaluator (operands of 1 byte up to several words, scratch and scramble arrays with short tails)
